@@ -11,11 +11,10 @@
 (*   route   : Ok/Err of both routes for that capacity as Compress predicts *)
 (*             (equal), byte-identical keys on Ok                           *)
 (*   hostile : Ok/Err class of compile_with_compressed on an edited         *)
-(*             container as Compress!CompileCompressed predicts (the        *)
-(*             container is modelled as the code reads it); peak heap       *)
+(*             container as Compress!CompileCompressed predicts; peak heap  *)
 (*             within Compress!AllocBound(capacity).  An ACCEPTED container *)
-(*             with a non-empty tail is printed as FINDING: the property    *)
-(*             asks for an error there (CompressMC!RejectsTrailing).        *)
+(*             with a non-empty tail is additionally printed as FINDING     *)
+(*             (the pre-fix behaviour, CompressMC!RejectsTrailing).         *)
 (* One line per event: VERDICT|.. / MISMATCH|.. / FINDING|..                *)
 (***************************************************************************)
 EXTENDS Naturals, Sequences, FiniteSets, TLC, Json, IOUtils
@@ -28,7 +27,7 @@ Canon(s) == s[3]
 IntB(v) == IF v <= 127 THEN 1 ELSE IF v <= 255 THEN 2 ELSE IF v <= 65535 THEN 3 ELSE 5
 
 C == INSTANCE Compress WITH BaseList <- Table, ScalarBytes <- SB,
-                            IntBytes <- IntB, Canonical <- Canon
+                            IntBytes <- IntB, Canonical <- Canon, TailIgnored <- FALSE
 
 Slack == 65536
 
@@ -83,10 +82,7 @@ JudgeHostile(e) ==
               ELSE "err:TruncatedDegreeTooLarge"
       bound == C!AllocBound(max, Slack) + (IF e.res = "ok" THEN e.direct_peak ELSE 0)
       work == C!WorkBounded(d.work, max)
-      \* a container with bytes after the stream: as the code reads it (pred), or
-      \* rejected as the property asks (what a repaired decoder does)
-      asked == e.container.tail # 0 /\ e.res = "err:InvalidCompressedCircuit"
-      good == (pred = e.res \/ asked) /\ e.peak <= bound /\ work
+      good == pred = e.res /\ e.peak <= bound /\ work
       finding == e.res = "ok" /\ e.container.tail # 0
   IN /\ IF good
         THEN PrintT("VERDICT|" \o ToString(l) \o "|hostile|" \o e.class \o "|" \o pred)
